@@ -97,13 +97,58 @@ func withReader(r *stream, f func()) {
 func checkC08(c c08Case) (v verdict) {
 	st := &stream{seed: c.Seed, konst: c.Konst, chunk: c.Chunk}
 	sizes := map[int]bool{}
-	unsupportedBetween := false
+	unsupportedBetween, otherOps := false, false
 	succ := 0
 	var outs [][2]string
 	v = ok(false)
 	withReader(st, func() {
 		model := 0
 		for i, a := range c.Ops {
+			if a >= 256 {
+				// another exported operation between the RandomSecret calls (kind = a>>8, algorithm value = a&255): none of them
+				// may change what RandomSecret does afterwards; if one of them hands out a freshly generated secret itself (a URL
+				// builder that fills in an empty secret), that secret is "produced by random-secret generation" too
+				kind, al := a>>8, a&255
+				switch kind {
+				case 1:
+					_ = otp.Algorithm(al).String()
+					_ = fmt.Sprintf("%v %s %d %#v", otp.Algorithm(al), otp.Algorithm(al), otp.Algorithm(al), otp.Algorithm(al))
+					otp.AlgorithmFromStr(otp.Algorithm(al).String())
+				case 2, 3:
+					up := otp.URLParam{Issuer: "Iss", AccountName: "acc", Secret: "", Algorithm: otp.Algorithm(al)}
+					u, err := otp.GenerateTOTPURL(up)
+					if kind == 3 {
+						u, err = otp.GenerateHOTPURL(up)
+					}
+					sec := ""
+					if err == nil && u != nil {
+						sec = u.Query().Get("secret")
+					}
+					if sec == "" {
+						if st.cur != model {
+							v = bad(true, []string{"url-empty-secret"}, "call %d: URL generation with an empty secret (algorithm %d) handed out no secret but consumed %d random bytes", i, al, st.cur-model)
+							return
+						}
+						break
+					}
+					n := sizeOf(al)
+					if n < 0 {
+						v = bad(true, []string{"url-empty-secret"}, "call %d: URL generation with an empty secret and the unsupported hash %d produced the secret %q; want an error and no secret", i, al, sec)
+						return
+					}
+					want := st.at(model, n)
+					if back, derr := otp.DecodeSecret(sec); derr != nil || !bytes.Equal(back, want) || st.cur != model+n {
+						v = bad(true, []string{"url-empty-secret"}, "call %d: URL generation filled the empty secret with %q (%d bytes, %d random bytes consumed); a generated secret for hash %d is the next %d bytes of the random source, %x", i, sec, len(back), st.cur-model, al, n, want)
+						return
+					}
+					model += n
+				default:
+					otp.GenerateHOTPURL(otp.URLParam{Issuer: "Iss", AccountName: "acc", Secret: "JBSWY3DPEHPK3PXP", Algorithm: otp.Algorithm(al)})
+					otp.GenerateHOTP("JBSWY3DPEHPK3PXP", 1, &otp.Param{Digits: 6, Algorithm: otp.Algorithm(al)})
+				}
+				otherOps = true
+				continue
+			}
 			got, err := otp.RandomSecret(otp.Algorithm(a))
 			n := sizeOf(a)
 			if n < 0 {
@@ -164,11 +209,14 @@ func checkC08(c c08Case) (v verdict) {
 	if unsupportedBetween {
 		labels = append(labels, "unsupported-between")
 	}
-	return ok(nt, labels...)
+	if otherOps {
+		labels = append(labels, "other-operations-between")
+	}
+	return ok(nt || otherOps, labels...)
 }
 
 var c08Main = newPart("C08", "histories",
-	"rapid: call histories of 1..24 RandomSecret calls with algorithm values 0..255 (biased to the three hashes), crypto/rand.Reader replaced by a recording endless stream (SHA-256 counter-mode PRF of a drawn seed, or a constant byte 0x00/0xff/other) delivered in full or in short reads of 1..7 bytes; model = stream cursor: k-th successful call returns exactly unpadded upper-case base32 of stream[cur:cur+20|32|64], consumes exactly that many bytes, DecodeSecret maps it back, and every secret returned earlier in the history is still unchanged; unsupported algorithm => error, no secret, nothing consumed; non-trivial = >= 2 successful calls of different sizes or an unsupported call after a successful one",
+	"rapid: call histories of 1..24 RandomSecret calls with algorithm values 0..255 (biased to the three hashes), crypto/rand.Reader replaced by a recording endless stream (SHA-256 counter-mode PRF of a drawn seed, or a constant byte 0x00/0xff/other) delivered in full or in short reads of 1..7 bytes; model = stream cursor: k-th successful call returns exactly unpadded upper-case base32 of stream[cur:cur+20|32|64], consumes exactly that many bytes, DecodeSecret maps it back, and every secret returned earlier in the history is still unchanged; unsupported algorithm => error, no secret, nothing consumed; in between, other exported operations (rendering algorithm values, URL builders with and without a secret, HOTP) which must not change any of this — a secret a URL builder generates for an empty Secret is held to the same rule; non-trivial = >= 2 successful calls of different sizes or an unsupported call after a successful one",
 	checkC08)
 
 func genC08(t *rapid.T) c08Case {
@@ -180,8 +228,15 @@ func genC08(t *rapid.T) c08Case {
 		c.Chunk = rapid.IntRange(1, 7).Draw(t, "chunk")
 	}
 	c.Ops = rapid.SliceOfN(rapid.Custom(func(t *rapid.T) int {
-		if rapid.IntRange(0, 5).Draw(t, "opKind") == 0 {
+		switch rapid.IntRange(0, 7).Draw(t, "opKind") {
+		case 0:
 			return rapid.IntRange(3, 255).Draw(t, "badAlgo")
+		case 1: // another operation in between: rendering an algorithm value, URL builders (with and without a secret), HOTP
+			al := rapid.SampledFrom([]int{0, 1, 2, 3, 4, 200, 255}).Draw(t, "otherAlgo")
+			if rapid.Bool().Draw(t, "otherSame") {
+				al = rapid.IntRange(3, 255).Draw(t, "otherBad")
+			}
+			return rapid.IntRange(1, 4).Draw(t, "otherKind")<<8 | al
 		}
 		return rapid.IntRange(0, 2).Draw(t, "algo")
 	}), 1, 24).Draw(t, "ops")
